@@ -195,6 +195,11 @@ func (k c13) enumerate(c *rt.Ctx, q string, pairs []refstore.Pair, m drive.Mode)
 	for i := 0; i < n; i++ {
 		fs := refstore.New(pairs)
 		fs.FailAt = i
+		if (c.Case+i)%3 == 0 {
+			// every third fault carries io.EOF in its chain ("connection closed"): still an error
+			fs.FaultErr = refstore.ErrInjectedEOF
+			rec.Inc("faults_with_eof_in_their_chain")
+		}
 		rec.Inc("faults_planned")
 		fo := drive.Run(q, fs, m)
 		rec.Eval(1)
